@@ -178,14 +178,16 @@ def run_case(case):
             if o == 'err':
                 raise exceptions.EventHandlingError('no')
         a = svc.MockAssociation(types.SimpleNamespace(on_commitment_response=on_commitment_response))
+        # the response repeats the REQUEST's instance UID: every other request names another one than the well-known
+        ev_inst = STORAGE_COMMITMENT_INSTANCE if (mid + pc) % 2 else inst_uid
         rq, _ = svc.received(dm.NEventReportRQMessage, pc, message_id=mid, sop_class_uid=cls_uid,
-                             affected_sop_instance_uid=STORAGE_COMMITMENT_INSTANCE, event_type_id=2 if fail else 1,
+                             affected_sop_instance_uid=ev_inst, event_type_id=2 if fail else 1,
                              data_set=dsutils.encode(ds, True, True))
         sc.StorageCommitment()(a, svc.ctx(pc, cls_uid), rq)
         w = a.wire()
         if len(w) != 1:
             return 'N-EVENT-REPORT-RQ answered %d times' % len(w)
-        return expect(svc.fields(w[0]), pc, mid, cls_uid, STORAGE_COMMITMENT_INSTANCE, 0x8100, 0x0110 if o == 'err' else 0, 'N-EVENT-REPORT-RSP')
+        return expect(svc.fields(w[0]), pc, mid, cls_uid, ev_inst, 0x8100, 0x0110 if o == 'err' else 0, 'N-EVENT-REPORT-RSP')
     raise KeyError(prov)
 
 
